@@ -148,8 +148,9 @@ def _masked_nonzero(f: Func, cond_left: ast.expr) -> bool:
     return False
 
 
-SITES = [("cauchy.get_cauchy_point", {"x"}), ("linesearch.max_allowed_steplength", {"x"}),
-         ("subspacemin.subspace_minimization", {"xc", "x"})]
+# (module, anchor function of the module, names of the feasible base points)
+SITES = [("cauchy", "cauchy.get_cauchy_point", {"x"}), ("linesearch", "linesearch.max_allowed_steplength", {"x"}),
+         ("subspacemin", "subspacemin.subspace_minimization", {"xc", "x"})]
 
 
 @rule("SIGN", min_instances=8)
@@ -160,11 +161,13 @@ def rule_sign(ctx: Ctx) -> List[Ob]:
     moving up and to lb when moving down; f' = -d.d <= 0 and f'' = -theta f' >= 0 at their
     definitions; the stationary step is clamped at 0 before use"""
     obs: List[Ob] = []
-    for q, bases in SITES:
-        f = ctx.repo.func(q)
-        need("lb" in f.params and "ub" in f.params, f"{q}: lb / ub parameters not found")
+    for mod, q, bases in SITES:
+      ctx.repo.func(q)     # anchor
+      n = 0
+      for f in ctx.repo.funcs_in(mod):
+        if not ("lb" in f.params and "ub" in f.params):
+            continue
         S = Signs("lb", "ub", bases)
-        n = 0
         from ..flow import Expander, selection_like
         ex = Expander(ctx, f, only=selection_like)
         parents = {id(c): p for p in ast.walk(f.node) for c in ast.iter_child_nodes(p)}
@@ -189,15 +192,17 @@ def rule_sign(ctx: Ctx) -> List[Ob]:
                                   f"under {cond}: sign({desc}) = {s}" + ("" if masked else "; the direction is not masked by `!= 0`, so the other branch includes 0/0") +
                                   ("" if ok else ": the step bound / breakpoint is negative -- the wrong bound is used for this direction"),
                                   construct=f"{f.name}: np.where branch [{cond}] {desc}"))
-        need(n >= 2, f"SIGN: no bound-ratio np.where found in {q}")
+      need(n >= 2, f"SIGN: no bound-ratio np.where found in module {mod}")
     # pinning in the Cauchy loop
     f = ctx.repo.func("cauchy.get_cauchy_point")
+    from ..flow import Expander, selection_like
+    pex = Expander(ctx, f, only=selection_like)
     npin = 0
     for s in walk_no_nested(f.node):
         if isinstance(s, ast.If):
             cur: Optional[ast.If] = s
             while cur is not None:
-                t = cur.test
+                t = pex.expand_at(cur.test, cur.test)
                 if isinstance(t, ast.Compare) and len(t.ops) == 1 and isinstance(t.comparators[0], ast.Constant) and t.comparators[0].value == 0 \
                         and src(strip_sub(t.left)) == "d" and type(t.ops[0]) in (ast.Gt, ast.Lt):
                     for st in cur.body:
@@ -252,7 +257,18 @@ def rule_sign(ctx: Ctx) -> List[Ob]:
     from ..flow import node_defs
     use = [n for n in cfg.nodes if n.kind == "stmt" and isinstance(n.ast, ast.AugAssign) and src(n.ast.target) == "t_old"
            and src(n.ast.value) == "delta_t_min" and not n.loops]
-    clamp = [n for n in cfg.nodes for k, v, how in node_defs(n) if k == "delta_t_min" and v is not None and not n.loops and (
+    def _clamp_if(n):
+        # `delta_t_min = 0` under the true edge of `delta_t_min < 0` (if-statement form of the clamp)
+        if not (isinstance(n.ast, ast.Assign) and isinstance(n.ast.value, ast.Constant) and n.ast.value.value == 0):
+            return False
+        for p in cfg.nodes:
+            if p.kind == "test" and isinstance(p.ast, ast.Compare) and src(p.ast.left) == "delta_t_min" and isinstance(p.ast.ops[0], (ast.Lt, ast.LtE)) \
+                    and isinstance(p.ast.comparators[0], ast.Constant) and p.ast.comparators[0].value == 0 \
+                    and any(b is n and lab is True for b, lab in cfg.succ[p]):
+                return True
+        return False
+    clamp_if_tests = [p for p in cfg.nodes if p.kind == "test" and any(_clamp_if(b) for b, lab in cfg.succ[p])]
+    clamp = clamp_if_tests + [n for n in cfg.nodes for k, v, how in node_defs(n) if k == "delta_t_min" and v is not None and not n.loops and (
         (isinstance(v, ast.IfExp) and S.sg(v, {"delta_t_min": NONNEG}) in (NONNEG, ZERO) and isinstance(v.test, ast.Compare)) or
         (isinstance(v, ast.Call) and dotted(v.func) in ("max", "np.maximum") and any(isinstance(a, ast.Constant) and a.value == 0 for a in v.args)))]
     ok = bool(use) and bool(clamp) and all(cfg.dominates(clamp[-1], u) for u in use)
